@@ -491,9 +491,39 @@ class XmlTime(NamedTuple):
 DurationType = XmlTime | XmlDateTime
 
 
+def _days_from_civil(year: int, month: int, day: int) -> int:
+    """Return the day number of a proleptic gregorian date, for any signed year."""
+    if month <= 2:
+        year -= 1
+        month += 9
+    else:
+        month -= 3
+
+    era, year_of_era = divmod(year, 400)
+    day_of_year = (153 * month + 2) // 5 + day - 1
+    day_of_era = year_of_era * 365 + year_of_era // 4 - year_of_era // 100 + day_of_year
+    return era * 146097 + day_of_era
+
+
+def _timeline(obj: DurationType) -> tuple[int, int]:
+    """Return the exact position on the timeline as (seconds, nanoseconds)."""
+    days = 0
+    if isinstance(obj, XmlDateTime):
+        days = _days_from_civil(obj.year, obj.month, obj.day)
+
+    seconds = (
+        days * DS_DAY
+        + obj.hour * DS_HOUR
+        + obj.minute * DS_MINUTE
+        + obj.second
+        + (obj.offset or 0) * DS_OFFSET
+    )
+    return seconds, obj.fractional_second
+
+
 def _cmp(a: DurationType, b: DurationType, op: Callable) -> bool:
     if isinstance(b, a.__class__):
-        return op(a.duration, b.duration)
+        return op(_timeline(a), _timeline(b))
 
     return NotImplemented
 
